@@ -36,6 +36,11 @@ def c03_programs():
     P.rel("r", [("x", "number"), ("c", "number")], is_output=True)
     P.rules += [Rule([Atom("r", [X, Var("c")])], [Atom("a", [X]), Cmp("=", Var("c"), Agg("count", None, [Atom("e", [X, Anon()])]))], None)]
     out.append(("aggregate", P))
+    # an aggregate as the outermost operation of a rule is evaluated as a parallel reduction over the chunks of the relation
+    P = Program(); _ae(P)
+    P.rel("r", [("c", "float")], is_output=True)
+    P.rules += [Rule([Atom("r", [Var("c")])], [Cmp("=", Var("c"), Agg("mean", Fn("to_float", [Y]), [Atom("e", [Anon(), Y])]))], None)]
+    out.append(("outer-mean", P))
     P = Program(); _ae(P)
     P.rel("s", [("x", "number"), ("y", "number")], quals=("brie",), is_output=True)
     P.rules += [Rule([Atom("s", [X, Z])], [Atom("e", [X, Y]), Atom("e", [Y, Z])], None)]
@@ -49,6 +54,11 @@ def c03_programs():
     P.rules += [Rule([Atom("m", [X, Y])], [Atom("e", [X, Y])], None), Rule([Atom("m", [Y, X])], [Atom("m", [X, Y]), Atom("a", [Y])], None),
                 Rule([Atom("m", [X, Z])], [Atom("m", [X, Y]), Atom("m", [Y, Z]), Cmp("<", X, Z)], None)]
     out.append(("nonlinear", P))
+    for op in ("sum", "count", "min", "max"):
+        P = Program(); _ae(P)
+        P.rel("r", [("c", "number")], is_output=True)
+        P.rules += [Rule([Atom("r", [Var("c")])], [Cmp("=", Var("c"), Agg(op, None if op == "count" else Y, [Atom("e", [Anon(), Y])]))], None)]
+        out.append(("outer-" + op, P))
     return out
 
 
@@ -69,7 +79,7 @@ def run_gomp(rep, tier, deadline, which):
                 continue
             jobs.append(("c22-" + c.tags[2], c.prog, scen(tier), ("autoinc", c.tags[1]), {"ref_prog": c.ref_prog}))
     if tier == "quick":
-        jobs = jobs[:3]
+        jobs = jobs[:4]
     exes = pmap(_build, jobs, jobs=min(6, len(jobs)))
     for (name, P, scn, kind, extra), exe in zip(jobs, exes):
         if isinstance(exe, str) and exe.startswith("ERROR"):
